@@ -153,6 +153,9 @@ func (s *search) exec(hist []int, verbose *strings.Builder) (out vk.Outcome) {
 	}
 	atomic.AddInt64(&executed, 1)
 	mode := modeNames[s.mode]
+	if len(s.prefix) > 0 {
+		mode += ", start state " + strings.Join(s.effNamesIdx(s.prefix), ";")
+	}
 
 	// ---- oracle 1: every getter of every live instance ----
 	wants := make([]iobs, len(w.inst))
@@ -535,7 +538,7 @@ func slices(quick bool) []slice {
 			mk(kAddTok, A, 0, 0, 5), mk(kSetState, A, 0, 0, 1), mk(kSetState, A, 0, 0, 0), mk(kAddBal, A, 0, 0, 3), mk(kAddLog, 0, 0, 0, 0), mk(kSuicide, A, 0, 0, 0)},
 			[]op{mk(kSnapshot, 0, 0, 0, 0), mk(kRevert, 0, 0, 0, 0), mk(kCopySwitch, 0, 0, 0, 0), mk(kCopyStay, 0, 0, 0, 0),
 				mk(kSwitch, 0, 0, 0, 0), mk(kSwitch, 0, 0, 0, 1), mk(kSwitch, 0, 0, 0, 2), mk(kIRoot, 0, 0, 0, 0), mk(kCommit, 0, 0, 0, 0)}),
-			quickD: 5, thorD: 7, quickS: 4, thorS: 5},
+			quickD: 5, thorD: 6, quickS: 4, thorS: 5},
 		slice{name: "two-accounts", ops: cat([]op{
 			mk(kAddBal, A, 0, 0, 3), mk(kSubBal, A, 0, 0, 3), mk(kAddBal, B, 0, 0, 3), mk(kAddTok, A, 0, 0, 5), mk(kAddTok, B, 0, 0, 5),
 			mk(kSubTok, B, 0, 0, 5), mk(kSuicide, A, 0, 0, 0)},
@@ -544,7 +547,7 @@ func slices(quick bool) []slice {
 		slice{name: "tokens", ops: cat([]op{
 			mk(kAddTok, A, 0, 0, 5), mk(kSubTok, A, 0, 0, 5), mk(kAddTok, A, 1, 0, 5), mk(kSetTok, A, 0, 0, 0),
 			mk(kAddBal, A, 0, 0, 3), mk(kSuicide, A, 0, 0, 0), mk(kCreate, A, 0, 0, 0)},
-			ctrl(2, false, 2)), quickD: 5, thorD: 7, quickS: 4, thorS: 6},
+			ctrl(2, false, 2)), quickD: 5, thorD: 7, quickS: 4, thorS: 5},
 	)
 	return out
 }
